@@ -731,7 +731,12 @@ class DAG(BaseDAG[P, RVDAG]):
 
             # updating ids of results already registered in the DAG due to pipeline.setup and default args
             node.results.update(
-                StrictDict((to_subdag_id(id_), res) for id_, res in self.results.items())
+                StrictDict(
+                    (to_subdag_id(id_), res)
+                    for id_, res in self.results.items()
+                    # a value supplied by the caller overrides the default of the SubDAG's parameter
+                    if to_subdag_id(id_) not in registered_input_ids
+                )
             )
 
             # updating values of the ExecNodes with the new Ids only for the inputs that were changed!
